@@ -4,6 +4,9 @@
 //! (`/verif/ocaml/proto/replay.ml`).
 //!
 //! usage: proto_harness --out DIR [--iters N] [--seed S] [--workload NAME] [--scheduler pct|random]
+//!                      [--replay SCHEDULEFILE [--warmup N]]      (shuttle build, with --workload)
+//! When an execution dies under shuttle (an assertion inside salsa, a deadlock, the step bound) the
+//! H2 trace of that execution up to the failure is written to `DIR.FAILED`.
 //!
 //! Workloads with the `shuttle` feature (default):
 //!   acyclic      three threads requesting overlapping acyclic queries
@@ -649,6 +652,8 @@ struct Args {
     seed: u64,
     workload: Option<String>,
     scheduler: String,
+    replay: Option<String>,
+    warmup: usize,
 }
 
 fn parse_args() -> Args {
@@ -658,6 +663,8 @@ fn parse_args() -> Args {
         seed: 1,
         workload: None,
         scheduler: "pct".into(),
+        replay: None,
+        warmup: 3,
     };
     let mut it = std::env::args().skip(1);
     while let Some(k) = it.next() {
@@ -668,6 +675,8 @@ fn parse_args() -> Args {
             "--seed" => a.seed = v().parse().expect("--seed S"),
             "--workload" => a.workload = Some(v()),
             "--scheduler" => a.scheduler = v(),
+            "--replay" => a.replay = Some(v()),
+            "--warmup" => a.warmup = v().parse().expect("--warmup N"),
             other => panic!("unknown argument {other}"),
         }
     }
@@ -714,6 +723,16 @@ fn drive(name: &'static str, f: fn(), args: &Args) {
     };
     let mut config = shuttle::Config::default();
     config.stack_size = 1024 * 1024;
+    if let Some(file) = &args.replay {
+        // replay of a schedule that shuttle printed for a failed execution (saved to a file): a few
+        // warm-up executions first (process-wide lazy initialisation must not add scheduling
+        // points to the replayed execution), then the schedule
+        let s = shuttle::scheduler::PctScheduler::new_from_seed(args.seed, 50, args.warmup);
+        shuttle::Runner::new(s, config.clone()).run(body.clone());
+        let s = shuttle::scheduler::ReplayScheduler::new_from_file(file).expect("schedule file");
+        shuttle::Runner::new(s, config).run(body);
+        return;
+    }
     match args.scheduler.as_str() {
         "random" => {
             let s = shuttle::scheduler::RandomScheduler::new_from_seed(args.seed, args.iters);
@@ -741,6 +760,30 @@ fn main() {
     let args = parse_args();
     RNG.store(args.seed.wrapping_mul(0x9E3779B97F4A7C15) | 1, StdOrdering::SeqCst);
     std::fs::create_dir_all(&args.out).expect("create output directory");
+    #[cfg(feature = "shuttle")]
+    {
+        // The FIRST panic of the process (an assertion inside salsa, shuttle's deadlock / step-bound
+        // report): keep the H2 protocol trace of the failing execution up to that point in
+        // `<out>.FAILED` (next to, not inside, the directory of the complete traces).  A
+        // catch_unwind around the runner would not do: the unwinding usually hits a poisoned lock
+        // in a destructor and the process aborts.
+        static DUMPED: std::sync::atomic::AtomicBool = std::sync::atomic::AtomicBool::new(false);
+        let path = PathBuf::from(format!("{}.FAILED", args.out.display()));
+        let prev = std::panic::take_hook();
+        std::panic::set_hook(Box::new(move |info| {
+            if !DUMPED.swap(true, StdOrdering::SeqCst) {
+                let lines = salsa::verif_take_proto_trace();
+                if let Ok(f) = std::fs::File::create(&path) {
+                    let mut f = std::io::BufWriter::new(f);
+                    for l in lines {
+                        let _ = writeln!(f, "{l}");
+                    }
+                }
+                eprintln!("first panic: protocol trace of the failing execution in {}", path.display());
+            }
+            prev(info)
+        }));
+    }
     let mut ran = 0;
     for (name, f) in WORKLOADS {
         if args.workload.as_deref().is_some_and(|w| w != *name) {
